@@ -120,6 +120,8 @@ func cmdCheck(args []string) int {
 	g.buildFrames()
 	dir, _ := os.MkdirTemp("", "rainvc")
 	defer os.RemoveAll(dir)
+	// replay files describe this run only
+	os.RemoveAll(filepath.Join(*verif, "replays", *prop))
 	cr := &checkRun{prop: *prop, tier: *tier, g: g, oblVC: map[*Obligation]*VC{}, dir: dir, verifDir: *verif}
 	timeout := 10
 	if *tier == "thorough" {
